@@ -28,7 +28,8 @@ REQUIRED = ["route.list", "route.one-by-one", "route.scenario", "route.xml", "ro
             "point.edge-mid", "shape-coherence.Circle", "shape-coherence.Rectangle", "shape-coherence.Polygon",
             "shape-coherence.ShapeGroup", "get_obstacles", "map_obstacles_to_lanelets", "contains_points",
             "kind.adjacent", "kind.crossing", "kind.nested", "provenance.placed-angle-0", "provenance.placed",
-            "provenance.translate_rotate", "provenance.deepcopy", "provenance.after-setters", "route.deferred-index", "route.deferred-remove",
+            "provenance.translate_rotate", "provenance.deepcopy", "provenance.after-setters",
+            "obstacle-absent-at-query-time", "contains_points.single-point", "route.deferred-index", "route.deferred-remove",
             "route.translate-before-index"]
 ASSUMPTIONS = ["lanelet polygons are simple (strips with strictly increasing abscissa)",
                "circle queries within 0.2% of the radius of a boundary are not judged (shapely discs are 64-gons)"]
@@ -193,6 +194,11 @@ def run(ctx):
             try:
                 got = la.contains_points(arr)
                 ctx.feature("contains_points")
+                one = la.contains_points(arr[:1])  # a single query point is a query too
+                ctx.feature("contains_points.single-point")
+                if [bool(x) for x in one] != [bool(got[0])]:
+                    ctx.violation("C06/Lanelet.contains_points/single-point-differs", "%s vs %s" % (one, got[0]),
+                                  {"point": pts[0]})
                 for (kind, p), g in zip(pts, got):
                     ctx.evaluation()
                     v = geom.point_in_ring(p, ring, exact=lookup.is_lattice_num(p[0]) and lookup.is_lattice_num(p[1]))
@@ -216,6 +222,15 @@ def run(ctx):
                     continue
                 obstacles.append(o)
                 descs[o.obstacle_id] = (geom.describe(shp), exact)
+            if obstacles and isinstance(shapes[0][1], Rectangle):
+                # an obstacle that enters the scenario later has no occupancy at time step 0: it is on no lanelet then
+                from commonroad.scenario.obstacle import DynamicObstacle
+                shp0 = shapes[0][1]
+                late = DynamicObstacle(599, ObstacleType.CAR, Rectangle(shp0.length, shp0.width), InitialState(
+                    position=shp0.center, orientation=shp0.orientation, time_step=rng.choice([1, 3])))
+                obstacles.append(late)
+                descs[599] = None
+                ctx.feature("obstacle-absent-at-query-time")
             if obstacles:
                 try:
                     mapping = net.map_obstacles_to_lanelets(obstacles)
@@ -233,6 +248,12 @@ def run(ctx):
                                           "%s vs %s" % (sorted(got_ids), sorted(single)), {"route": label})
                         for o in obstacles:
                             ctx.evaluation()
+                            if descs[o.obstacle_id] is None:
+                                if o.obstacle_id in got_ids or o in filt:
+                                    ctx.violation("C06/Lanelet.get_obstacles/obstacle-absent-at-time-step-returned",
+                                                  "obstacle %d has no occupancy at time step 0" % o.obstacle_id,
+                                                  {"route": label})
+                                continue
                             d, exact = descs[o.obstacle_id]
                             v = geom.desc_ring_relation(d, ring2, exact=exact and lookup.is_lattice_ring(ring2))
                             if v is None:
